@@ -2,6 +2,7 @@
   CRProofs.DrawSelect — lemmas about the selection model `CR.Draw` (CRModel/DrawSelect.lean).
 -/
 import CRModel.DrawSelect
+set_option linter.unusedSimpArgs false
 namespace CR.Draw
 
 theorem mem_pyRange (a b t : Int) : t ∈ pyRange a b ↔ a ≤ t ∧ t < b := by
@@ -68,5 +69,334 @@ theorem hidden_no_occ_tb (f : DynFlags) (o : Obst) (hr : o.role = .dynamic) (hw 
     · omega
     · have := w3 hn; omega
     · omega
+
+/-! ### the checked layer computes the same items and never fails on readable obstacles -/
+
+@[simp] theorem anchorC_eq (s : StateInfo) : anchorC s = .ok (anchorSel s) := by
+  cases h : s.uncPos <;> simp [anchorC, anchorSel, h, centerOf, indexXY, bind, Except.bind, pure, Except.pure]
+
+@[simp] theorem midC_eq (b : Bool) : midC b = .ok (midSel b) := by
+  cases b <;> simp [midC, midSel, realArg, bind, Except.bind, pure, Except.pure]
+
+theorem trajStateC_eq (o : Obst) (t : Int) (h : o.pred.isTraj = true) :
+    trajStateC o t = .ok (if o.stateAt.mem t then some (o.stateInfo t) else none) := by
+  simp [trajStateC, h]
+
+theorem dynHiddenC_eq (f : DynFlags) (o : Obst) (h : o.pred ≠ .setbEmpty) :
+    dynHiddenC f o = .ok (dynHidden f o) := by
+  by_cases h1 : o.initTs < f.tb <;> by_cases h2 : f.te < o.initTs <;> by_cases h2' : o.initTs > f.te <;>
+    first
+    | omega
+    | (cases hp : o.pred with
+       | none => simp [dynHiddenC, dynHidden, hp, Pred.isNone, h1, h2, pure, Except.pure, bind, Except.bind]
+       | traj fin =>
+         simp [dynHiddenC, dynHidden, hp, Pred.isNone, Pred.finalC, Pred.final, h1, h2, pure, Except.pure, bind, Except.bind]
+       | setb fin =>
+         simp [dynHiddenC, dynHidden, hp, Pred.isNone, Pred.finalC, Pred.final, h1, h2, pure, Except.pure, bind, Except.bind]
+       | setbEmpty => exact absurd hp h)
+
+theorem iconBlockC_eq (f : DynFlags) (o : Obst) : iconBlockC f o = .ok (iconBlock f o) := by
+  unfold iconBlockC iconBlock
+  by_cases h1 : (f.drawIcon && o.iconType && o.pred.isTraj) = true
+  · have ht : o.pred.isTraj = true := by simp only [Bool.and_eq_true] at h1; exact h1.2
+    simp only [h1, if_true]
+    by_cases h2 : o.hasLW = true
+    · simp only [h2, if_true]
+      by_cases h3 : f.tb = o.initTs
+      · simp [h3, pure, Except.pure, bind, Except.bind]
+      · by_cases h4 : o.stateAt.mem f.tb = true
+        · simp [h3, h4, trajStateC_eq o f.tb ht, pure, Except.pure, bind, Except.bind]
+        · simp [h3, h4, trajStateC_eq o f.tb ht, pure, Except.pure, bind, Except.bind]
+    · simp [h2, pure, Except.pure]
+  · simp only [h1]
+    by_cases h2 : f.drawIcon = true <;> simp [h2, pure, Except.pure]
+
+theorem labelStateC_eq (f : DynFlags) (o : Obst) : labelStateC f o = .ok (labelState f o) := by
+  unfold labelStateC labelState
+  by_cases h0 : f.tb = 0
+  · simp [h0, pure, Except.pure]
+  · by_cases ht : o.pred.isTraj = true
+    · simp [h0, ht, trajStateC_eq o f.tb ht]
+    · simp [h0, ht, pure, Except.pure]
+
+theorem stateItemC_eq (f : DynFlags) (s : StateInfo) : stateItemC f s = .ok (stateItem f s) := by
+  cases h : f.stateArrow <;> simp [stateItemC, stateItem, h, pure, Except.pure, bind, Except.bind]
+
+theorem occLoopC_eq (o : Obst) : ∀ (l : List Int), occLoopC o l = .ok (l.flatMap
+    (fun t => (if o.occ.mem t then [Item.occ t] else []) ++
+              (if o.pred.isTraj && o.stateAt.mem t && o.uncAt.mem t then [Item.uncState t] else [])))
+  | [] => by simp [occLoopC, pure, Except.pure]
+  | t :: ts => by
+    have ih := occLoopC_eq o ts
+    by_cases ht : o.pred.isTraj = true
+    · by_cases h1 : o.occ.mem t = true <;> by_cases h2 : o.stateAt.mem t = true <;> by_cases h3 : o.uncAt.mem t = true <;>
+        simp [occLoopC, ih, ht, h1, h2, h3, trajStateC_eq o t ht, occAtC, Obst.stateInfo, pure, Except.pure, bind, Except.bind]
+    · by_cases h1 : o.occ.mem t = true <;>
+        simp [occLoopC, ih, ht, h1, occAtC, pure, Except.pure, bind, Except.bind]
+
+/-- The partial-read version of `draw_dynamic_obstacle` emits exactly the items of the total one and does not fail,
+    unless the set-based prediction is empty (then `final_time_step` raises). -/
+theorem drawDynamicC_eq (f : DynFlags) (o : Obst) (h : o.pred ≠ .setbEmpty) :
+    drawDynamicC f o = .ok (drawDynamic f o) := by
+  unfold drawDynamicC drawDynamic
+  simp only [dynHiddenC_eq f o h, iconBlockC_eq, labelStateC_eq, occLoopC_eq, bind, Except.bind, pure, Except.pure]
+  by_cases hh : dynHidden f o = true
+  · simp [hh]
+  · simp only [hh]
+    rcases hib : iconBlock f o with ⟨shape, icon, items⟩
+    simp only [Bool.false_eq_true, if_false]
+    by_cases ho : o.occ.mem f.tb = true <;> by_cases hd : (f.drawOccupancies || o.pred.isSet) = true <;>
+      cases hl : labelState f o <;> by_cases hi : f.drawInitialState = true <;>
+      simp [occAtC, ho, hd, hi, stateItemC_eq, bind, Except.bind, pure, Except.pure]
+
+/-- What makes every partial read of the selection logic succeed: no empty set-based prediction (XSD: an
+    occupancy set has at least one occupancy) and — `draw_environment_obstacle` does not test for `None` — an
+    environment obstacle with an occupancy at every step (`EnvironmentObstacle.occupancy_at_time` always returns one). -/
+def Obst.Readable (o : Obst) : Prop :=
+  o.pred ≠ .setbEmpty ∧ (o.role = .env → o.occ.all = true)
+
+theorem drawObstacleC_eq (f : Flags) (o : Obst) (h : o.Readable) :
+    drawObstacleC f o = .ok (drawObstacle f o) := by
+  unfold drawObstacleC drawObstacle
+  cases hr : o.role with
+  | dynamic => simpa using drawDynamicC_eq f.dyn o h.1
+  | static => simp [pure, Except.pure]
+  | phantom => simp [pure, Except.pure]
+  | env =>
+    have := h.2 hr
+    simp [drawEnvC, drawEnv, occAtC, TSet.mem, this, deref, bind, Except.bind, pure, Except.pure]
+
+theorem mapM_ok {α β : Type} (g : α → Res β) (g' : α → β) :
+    ∀ (l : List α), (∀ a ∈ l, g a = .ok (g' a)) → l.mapM g = .ok (l.map g')
+  | [], _ => by simp [pure, Except.pure]
+  | a :: l, h => by
+    have h1 := h a (by simp)
+    have h2 := mapM_ok g g' l (fun b hb => h b (by simp [hb]))
+    simp [List.mapM_cons, h1, h2, bind, Except.bind, pure, Except.pure]
+
+theorem lightLabelsGo_ok (showLabel : Bool) : ∀ (ls : List LightInfo) (var : Option String),
+    ∃ r, lightLabelsGo showLabel true var ls = .ok r
+  | [], _ => ⟨[], by simp [lightLabelsGo, pure, Except.pure]⟩
+  | l :: ls, var => by
+    unfold lightLabelsGo
+    by_cases hp : l.hasPosition = true
+    · by_cases ha : l.active = true
+      · obtain ⟨r, hr⟩ := lightLabelsGo_ok showLabel ls (some l.state)
+        cases showLabel <;> simp [hp, ha, hr, bind, Except.bind, pure, Except.pure]
+      · obtain ⟨r, hr⟩ := lightLabelsGo_ok showLabel ls (some "inactive")
+        cases showLabel <;> simp [hp, ha, hr, bind, Except.bind, pure, Except.pure]
+    · obtain ⟨r, hr⟩ := lightLabelsGo_ok showLabel ls var
+      simp [hp, hr]
+
+/-! ### the prescribed occupancies as a predicate on time steps -/
+
+theorem pyRange_pairwise (a b : Int) : (pyRange a b).Pairwise (· < ·) := by
+  unfold pyRange
+  rw [List.pairwise_map]
+  exact (List.pairwise_lt_range).imp (by intro x y h; omega)
+
+theorem occItems_append (l1 l2 : List Item) : occItems (l1 ++ l2) = occItems l1 ++ occItems l2 := by
+  simp [occItems]
+
+theorem occItems_flatMap_occ (s : TSet) : ∀ (l : List Int),
+    occItems (l.flatMap (fun t => if s.mem t then [Item.occ t] else [])) = l.filter (fun t => s.mem t)
+  | [] => by simp [occItems]
+  | t :: ts => by
+    have ih := occItems_flatMap_occ s ts
+    by_cases h : s.mem t = true
+    · simp only [List.flatMap_cons, h, if_true, occItems_append, ih, List.filter_cons]; simp [occItems]
+    · simp only [List.flatMap_cons, h, occItems_append, ih, List.filter_cons]; simp [occItems]
+
+/-! ### computational form of the prescription (internal: same shape as the drawers; the property theorems use `Prescribed`) -/
+
+/-- "Shape drawing on; icons, signals, trajectories, extra occupancies and history off" for the
+    dynamic-obstacle group (direction triangle, state marker and label are further extras, off as well). -/
+def DynFlags.plain (f : DynFlags) : Prop :=
+  f.drawShape = true ∧ f.drawIcon = false ∧ f.drawDirection = false ∧ f.drawSignals = false ∧
+  f.drawOccupancies = false ∧ f.drawTrajectory = false ∧ f.drawHistory = false ∧
+  f.drawInitialState = false ∧ f.showLabel = false
+
+def PhFlags.plain (f : PhFlags) : Prop := f.drawShape = true ∧ f.drawOccupancies = false
+
+/-- What the property text prescribes for one obstacle and the window `[tb, te)`:
+    its occupancy at `tb` if it has one; for a dynamic obstacle with a set-based prediction also the
+    occupancies at the later steps of the window; nothing else. -/
+def modelShapes (tb te : Int) (o : Obst) : List Item :=
+  (if o.occ.mem tb then [Item.occ tb] else []) ++
+  (if o.role = .dynamic ∧ o.pred.isSet = true then
+     (pyRange (tb + 1) te).flatMap (fun t => if o.occ.mem t then [Item.occ t] else [])
+   else [])
+
+/-- Dynamic obstacles: for every well-formed obstacle with exactly known initial position, every window
+    `time_begin ≤ time_end` (before, inside, after the horizon) and plain flags, the patches emitted are
+    exactly the prescribed ones — in particular the early returns never hide an occupancy that lies in the
+    window and never let one through that lies outside. -/
+theorem dynamic_drawn_eq_model (f : DynFlags) (o : Obst) (hr : o.role = .dynamic) (hw : o.WF)
+    (hu : o.uncInit = false) (hwin : f.tb ≤ f.te) (hp : f.plain) :
+    drawDynamic f o = modelShapes f.tb f.te o := by
+  obtain ⟨p1, p2, p3, p4, p5, p6, p7, p8, p9⟩ := hp
+  by_cases hh : dynHidden f o = true
+  · have h0 := hidden_no_occ_tb f o hr hw hwin hh
+    have h1 := hidden_no_occ f o hr hw hh
+    have h2 : (pyRange (f.tb + 1) f.te).flatMap (fun t => if o.occ.mem t then [Item.occ t] else []) = [] :=
+      flatMap_occ_nil o.occ _ _ (fun t a b => h1 t (by omega) b)
+    simp [drawDynamic, hh, modelShapes, h0, h2]
+  · simp only [Bool.not_eq_true] at hh
+    cases hs : o.pred.isSet with
+    | false =>
+      cases hl : labelState f o <;>
+        simp [drawDynamic, hh, modelShapes, iconBlock, occWithInit, p1, p2, p3, p4, p5, p6, p7, p8, p9, hu, hs, hr, hl]
+    | true =>
+      have ht : o.pred.isTraj = false := by
+        cases hpq : o.pred <;> simp [hpq, Pred.isSet, Pred.isTraj] at hs ⊢
+      cases hl : labelState f o <;>
+        simp [drawDynamic, hh, modelShapes, iconBlock, occWithInit, p1, p2, p3, p4, p5, p6, p7, p8, p9, hu, hs, hr, ht, hl]
+
+/-- Static obstacles (exactly known position): the occupancy at `time_begin`, which always exists. -/
+theorem static_drawn_eq_model (tb te : Int) (o : Obst) (hr : o.role = .static) (hw : o.WF)
+    (hu : o.uncInit = false) : drawStatic tb o = modelShapes tb te o := by
+  simp only [Obst.WF, hr] at hw
+  simp [drawStatic, occWithInit, modelShapes, TSet.mem, hw, hu, hr]
+
+/-- Environment obstacles: the occupancy at `time_begin`, which always exists. -/
+theorem env_drawn_eq_model (tb te : Int) (o : Obst) (hr : o.role = .env) (hw : o.WF) :
+    drawEnv tb o = modelShapes tb te o := by
+  simp only [Obst.WF, hr] at hw
+  simp [drawEnv, modelShapes, TSet.mem, hw, hr]
+
+/-- Phantom obstacles: the occupancy at `time_begin` if there is one, nothing otherwise. -/
+theorem phantom_drawn_eq_model (f : PhFlags) (o : Obst) (hr : o.role = .phantom) (hp : f.plain) :
+    drawPhantom f o = modelShapes f.tb f.te o := by
+  obtain ⟨p1, p2⟩ := hp
+  simp [drawPhantom, modelShapes, p1, p2, hr]
+
+/-- The parameter groups of all four obstacle roles carry one window `[tb, te)` (what a top-level
+    assignment establishes, `C19_window_everywhere`) and plain flags. -/
+structure Flags.plainAt (f : Flags) (tb te : Int) : Prop where
+  dyn : f.dyn.plain
+  ph : f.ph.plain
+  dynTb : f.dyn.tb = tb
+  dynTe : f.dyn.te = te
+  phTb : f.ph.tb = tb
+  phTe : f.ph.te = te
+  stTb : f.tbStatic = tb
+  envTb : f.tbEnv = tb
+
+/-- **drawn_eq_model** for whole scenarios: any number of obstacles of any role in any order, any window
+    `tb ≤ te`: per obstacle the emitted patches are exactly the prescribed occupancies. -/
+theorem drawn_eq_modelShapes (f : Flags) (tb te : Int) (os : List Obst) (hf : f.plainAt tb te) (hwin : tb ≤ te)
+    (hw : ∀ o ∈ os, o.WF) (hu : ∀ o ∈ os, o.uncInit = false) :
+    drawScenario f os = os.map (modelShapes tb te) := by
+  simp only [drawScenario]
+  apply List.map_congr_left
+  intro o ho
+  have w := hw o ho
+  have u := hu o ho
+  cases hr : o.role with
+  | dynamic =>
+    have := dynamic_drawn_eq_model f.dyn o hr w u (by rw [hf.dynTb, hf.dynTe]; exact hwin) hf.dyn
+    simpa [drawObstacle, hr, hf.dynTb, hf.dynTe] using this
+  | static =>
+    have := static_drawn_eq_model f.tbStatic te o hr w u
+    simpa [drawObstacle, hr, hf.stTb] using this
+  | env =>
+    have := env_drawn_eq_model f.tbEnv te o hr w
+    simpa [drawObstacle, hr, hf.envTb] using this
+  | phantom =>
+    have := phantom_drawn_eq_model f.ph o hr hf.ph
+    simpa [drawObstacle, hr, hf.phTb, hf.phTe] using this
+
+
+/-- The flags the property text names: shape drawing on; icons, signals, trajectories, extra occupancies, history off. -/
+def DynFlags.asText (f : DynFlags) : Prop :=
+  f.drawShape = true ∧ f.drawIcon = false ∧ f.drawSignals = false ∧ f.drawOccupancies = false ∧
+  f.drawTrajectory = false ∧ f.drawHistory = false
+
+@[simp] theorem occItems_nil : occItems [] = [] := rfl
+@[simp] theorem occItems_occ (t : Int) (l : List Item) : occItems (Item.occ t :: l) = t :: occItems l := by simp [occItems]
+@[simp] theorem occItems_uncInit (l : List Item) : occItems (Item.uncInit :: l) = occItems l := by simp [occItems]
+@[simp] theorem occItems_dir (l : List Item) : occItems (Item.dir :: l) = occItems l := by simp [occItems]
+@[simp] theorem occItems_label (a : Anchor) (l : List Item) : occItems (Item.label a :: l) = occItems l := by simp [occItems]
+@[simp] theorem occItems_state (a : Anchor) (x : Option (Mid × Mid)) (l : List Item) :
+    occItems (Item.state a x :: l) = occItems l := by simp [occItems]
+
+/-- The occupancy items of `draw_dynamic_obstacle` under the text's flags — whatever direction triangle, state marker,
+    label and uncertain initial position add, they are not occupancy items. -/
+theorem occItems_drawDynamic (f : DynFlags) (o : Obst) (hr : o.role = .dynamic) (hw : o.WF)
+    (hwin : f.tb ≤ f.te) (ht : f.asText) :
+    occItems (drawDynamic f o) = occItems (modelShapes f.tb f.te o) := by
+  obtain ⟨p1, p2, p4, p5, p6, p7⟩ := ht
+  by_cases hh : dynHidden f o = true
+  · have h0 := hidden_no_occ_tb f o hr hw hwin hh
+    have h1 := hidden_no_occ f o hr hw hh
+    have h2 : (pyRange (f.tb + 1) f.te).flatMap (fun t => if o.occ.mem t then [Item.occ t] else []) = [] :=
+      flatMap_occ_nil o.occ _ _ (fun t a b => h1 t (by omega) b)
+    simp [drawDynamic, hh, modelShapes, h0, h2]
+  · simp only [Bool.not_eq_true] at hh
+    have hsI : o.pred.isSet = true → o.pred.isTraj = false := by
+      intro hs; cases hpq : o.pred <;> simp [hpq, Pred.isSet, Pred.isTraj] at hs ⊢
+    cases hs : o.pred.isSet with
+    | false =>
+      cases hl : labelState f o <;> cases hu : o.uncInit <;> cases hd : f.drawDirection <;>
+        cases hre : o.rectAt.mem f.tb <;> cases h8 : f.drawInitialState <;> cases h9 : f.showLabel <;>
+        cases hm : o.occ.mem f.tb <;>
+        simp [drawDynamic, hh, modelShapes, iconBlock, occWithInit, stateItem, occItems_append,
+          p1, p2, p4, p5, p6, p7, hs, hr, hl, hu, hd, hre, h8, h9, hm]
+    | true =>
+      have ht := hsI hs
+      cases hl : labelState f o <;> cases hu : o.uncInit <;> cases hd : f.drawDirection <;>
+        cases hre : o.rectAt.mem f.tb <;> cases h8 : f.drawInitialState <;> cases h9 : f.showLabel <;>
+        cases hm : o.occ.mem f.tb <;>
+        simp [drawDynamic, hh, modelShapes, iconBlock, occWithInit, stateItem, occItems_append,
+          p1, p2, p4, p5, p6, p7, hs, hr, ht, hl, hu, hd, hre, h8, h9, hm]
+
+/-- The occupancy steps of the computational prescription: `tb` if defined, then the defined later steps. -/
+theorem occItems_modelShapes (tb te : Int) (o : Obst) :
+    occItems (modelShapes tb te o) =
+      (if o.occ.mem tb then [tb] else []) ++
+      (if o.role = .dynamic ∧ o.pred.isSet = true then (pyRange (tb + 1) te).filter (fun t => o.occ.mem t) else []) := by
+  unfold modelShapes
+  rw [occItems_append]
+  congr 1
+  · split <;> simp
+  · split
+    · exact occItems_flatMap_occ o.occ _
+    · rfl
+
+/-- Exactly the flags the property text names, for the dynamic- and the phantom-obstacle group, and one window
+    `[tb, te)` in the groups of all four obstacle roles (what a top-level assignment establishes,
+    `C19_window_reaches_drawing`).  Nothing is assumed about `draw_direction`, `draw_initial_state`, `show_label`. -/
+structure Flags.textAt (f : Flags) (tb te : Int) : Prop where
+  dyn : f.dyn.asText
+  ph : f.ph.plain
+  dynTb : f.dyn.tb = tb
+  dynTe : f.dyn.te = te
+  phTb : f.ph.tb = tb
+  phTe : f.ph.te = te
+  stTb : f.tbStatic = tb
+  envTb : f.tbEnv = tb
+
+theorem occItems_drawObstacle (f : Flags) (tb te : Int) (o : Obst) (hf : f.textAt tb te) (hwin : tb ≤ te) (hw : o.WF) :
+    occItems (drawObstacle f o) =
+      (if o.occ.mem tb then [tb] else []) ++
+      (if o.role = .dynamic ∧ o.pred.isSet = true then (pyRange (tb + 1) te).filter (fun t => o.occ.mem t) else []) := by
+  rw [← occItems_modelShapes]
+  cases hr : o.role with
+  | dynamic =>
+    have := occItems_drawDynamic f.dyn o hr hw (by rw [hf.dynTb, hf.dynTe]; exact hwin) hf.dyn
+    simpa [drawObstacle, hr, hf.dynTb, hf.dynTe] using this
+  | static =>
+    simp only [Obst.WF, hr] at hw
+    cases hu : o.uncInit <;> simp [drawObstacle, hr, drawStatic, occWithInit, modelShapes, TSet.mem, hw, hu, hf.stTb]
+  | env =>
+    simp only [Obst.WF, hr] at hw
+    simp [drawObstacle, hr, drawEnv, modelShapes, TSet.mem, hw, hf.envTb]
+  | phantom =>
+    obtain ⟨p1, p2⟩ := hf.ph
+    simp [drawObstacle, hr, drawPhantom, modelShapes, p1, p2, hf.phTb]
+
+theorem Flags.plainAt.toText {f : Flags} {tb te : Int} (h : f.plainAt tb te) : f.textAt tb te := by
+  obtain ⟨p1, p2, _, p4, p5, p6, p7, _, _⟩ := h.dyn
+  exact ⟨⟨p1, p2, p4, p5, p6, p7⟩, h.ph, h.dynTb, h.dynTe, h.phTb, h.phTe, h.stTb, h.envTb⟩
 
 end CR.Draw
